@@ -16,6 +16,8 @@ def run(c):
     c.cov["bounds"] = {"trees": "<= %d nodes, all formers, implicit binders, 1 redundant parenthesis" % (5 if q else 6), "named_terms": "<= %d nodes" % (6 if q else 7), "programs": "<= %d nodes" % (5 if q else 6)}
     jobs = [("SENT", "MC_Trees", c07.trees_cfg(5 if q else 6, 1, c07.ALLKINDS, {"prod", "sum", "diff", "lt"}), "trees-5" if q else "trees-6"),
             ("SENT", "MC_Trees", c07.trees_cfg(6, 1, {"var", "type", "app", "lam", "pi", "ndpi", "let", "if"}, {"sum"}), "trees-6-binders"),
+            # function types whose result is a definition group: the parameter used in some definitions only, in the body only, nowhere
+            ("SENT", "MC_Trees", c07.trees_cfg(7 if q else 8, 0, {"var", "type", "pi", "let"}, {"sum"}), "trees-7-pilet" if q else "trees-8-pilet"),
             ("SCOPE", "MC_Scope", c08.cfg(6 if q else 7), "scope-%d" % (6 if q else 7)),
             ("PROG", "MC_Programs", pc.prog_cfg(5 if q else 6, ["sum", "quot", "lt"]), "prog-s%d" % (5 if q else 6)),
             ("PROG", "MC_Programs", pc.prog_cfg(4 if q else 5, ["sum", "lt"], holes=True), "prog-holes%d" % (4 if q else 5))]
